@@ -111,7 +111,7 @@ BUILT = {
              'inequalities of the carried group numbers, validity of the order, inverse(forward(j)) = j, the parity / ordering rules, and - for the current '
              'radial order - that every valid (n, m) is hit by its inverse index and maps back (surjectivity). The exported table (one row per index, no '
              'sampling) is compared with noll_to_nm, fringe_to_nm, nm_to_fringe, ansi_j_to_nm, nm_to_ansi_j and xy_j_to_mn.',
-        note='Trusted: TLC. Bounded: every index 1..20000 (quick) / 1..100000 (thorough), radial orders up to 199 / 446; xy_j_to_mn compared up to index 3000 / 20000.',
+        note='Trusted: TLC. Bounded: every index 1..60000 (quick), each evaluated twice (ascending, then descending) / 1..100000 (thorough), radial orders up to 199 / 446; xy_j_to_mn compared up to index 3000 / 20000.',
         technique='TLA+ spec (ZernikeIndex.tla, integer-only constructive definitions) checked by TLC for every index; exported table compared exhaustively with the prysm index functions'),
     'C15': dict(
         spec='Conv.tla',
